@@ -43,7 +43,7 @@ type C07Sc struct {
 	Evs   []C07Ev
 }
 
-var c07Variants = []string{"correct", "correct", "correct-error", "wrong-port", "wrong-ip", "mapped", "t-inc", "t-prefix", "t-ext", "t-empty", "t-other", "t-other", "dup", "dup"}
+var c07Variants = []string{"correct", "correct", "correct-error", "wrong-port", "wrong-ip", "mapped", "t-inc", "t-prefix", "t-ext", "t-empty", "t-other", "t-other", "dup", "dup", "query-same-t", "overlong-t"}
 
 func genC07(t *rapid.T) C07Sc {
 	sc := C07Sc{Dual: rapid.Bool().Draw(t, "dual")}
@@ -392,6 +392,17 @@ func runC07(sc C07Sc, c *kit.Case) *kit.Violation {
 					continue
 				}
 				payload = q.correctAt
+			case "query-same-t":
+				// a QUERY from the queried address that happens to carry the pending transaction ID: it is not a
+				// reply, must complete nothing, and is itself answered
+				payload = mkQuery(t, "ping", mkArgs(marker))
+			case "overlong-t":
+				// the same number in a non-minimal varint encoding is a different transaction ID
+				if len(t) > 0 && t[len(t)-1] < 0x80 {
+					t = append(append([]byte(nil), t[:len(t)-1]...), t[len(t)-1]|0x80, 0)
+				} else {
+					t = append(append([]byte(nil), t...), 0x80, 0)
+				}
 			}
 			if payload == nil {
 				if isErr {
@@ -408,7 +419,7 @@ func runC07(sc C07Sc, c *kit.Case) *kit.Violation {
 				if o.started && !o.returned && o.dest.String() == q.dest.String() {
 					sameAddrOutstanding++
 				}
-				if payload != nil && ev.Variant == "dup" {
+				if payload != nil && (ev.Variant == "dup" || ev.Variant == "query-same-t") {
 					continue
 				}
 				if o.started && !o.returned && !o.popped && o.dest.String() == from.String() && o.t == string(t) {
@@ -443,7 +454,19 @@ func runC07(sc C07Sc, c *kit.Case) *kit.Violation {
 				c.Label("dgram-near-miss-" + ev.Variant)
 			}
 			what += fmt.Sprintf(" %s aimed at #%d (from %v t=%q) -> model: completes #%d", ev.Variant, qi, from, t, hitIdx)
+			outMark := sv.C.NumOut()
 			sv.C.Inject(from, payload)
+			if ev.Variant == "query-same-t" {
+				if !sv.barrier(c) {
+					return nil
+				}
+				if _, ok := replyTo(outsFrom(sv.C, outMark), from, t); !ok {
+					waitFor(2*time.Second, func() bool { _, ok := replyTo(outsFrom(sv.C, outMark), from, t); return ok })
+					if _, ok := replyTo(outsFrom(sv.C, outMark), from, t); !ok {
+						return kit.Violatef("C07:query-mistaken-for-reply", "%s: an inbound query from %v carrying the transaction ID of an outstanding query was not answered as a query", what, from)
+					}
+				}
+			}
 		}
 		if !sv.barrier(c) {
 			return nil
